@@ -23,11 +23,12 @@ pub struct RunOpts {
     pub fingerprints: bool,
     pub sort_knobs_override: Option<SortKnobs>,
     pub continue_after_err: bool,
+    pub lean: bool,
 }
 
 impl Default for RunOpts {
     fn default() -> RunOpts {
-        RunOpts { keep_io: false, record_merge: false, fingerprints: false, sort_knobs_override: None, continue_after_err: false }
+        RunOpts { keep_io: false, record_merge: false, fingerprints: false, sort_knobs_override: None, continue_after_err: false, lean: false }
     }
 }
 
@@ -114,7 +115,7 @@ pub fn run_case(case: &Case, plan: &EnvPlan, opts: &RunOpts) -> RunResult {
         Case::Sort(c) => {
             let knobs = opts.sort_knobs_override.clone().unwrap_or_else(|| c.knobs.clone());
             // real-scale histories: keep one record per kind of call, not one per call
-            tx.lean = c.inserts.len() > 50_000;
+            tx.lean = opts.lean;
             let mut o = None;
             guarded(&mut tx, |tx| o = Some(exec_sort(tx, c, &knobs)));
             sort_obs = o;
